@@ -139,6 +139,10 @@ class Model:
                 continue
             if re.match(r'\w+_(equalities|weights|uprooted|element_index)$', f) or f == 'empty_join_is_dirty':
                 continue
+            if ty == 'ModelDelta':
+                # conclusions an early-returning close_until could not apply yet; only close_until touches it, no invariant speaks about it
+                self.delta_fields = getattr(self, 'delta_fields', []) + [f]
+                continue
             raise Unsupported('field %s: %s of the model struct is not understood by the contract generator' % (f, ty))
 
     def primary(self, rel, age):
